@@ -31,6 +31,7 @@ import (
 
 type Clause struct {
 	Optional bool // "ensures?": skipped at call sites where it does not type-check (generic callees)
+	Assumed  bool // "ensures!": assumed at call sites, not proved against the body (listed in the evidence)
 	Name string // optional label
 	Src  string
 	Expr ast.Expr
@@ -343,7 +344,7 @@ func (cs *ContractSet) parseFile(root, file string) error {
 			}
 			cs.Funcs[key] = fc
 			cur = fc
-		case "requires", "ensures", "ensures?", "cover":
+		case "requires", "ensures", "ensures?", "ensures!", "cover":
 			if cur == nil {
 				return bad(c, "%s outside func", kw)
 			}
@@ -357,11 +358,11 @@ func (cs *ContractSet) parseFile(root, file string) error {
 			if err != nil {
 				return err
 			}
-			cl := Clause{Name: name, Src: src, Expr: e, Line: c.line, Optional: kw == "ensures?"}
+			cl := Clause{Name: name, Src: src, Expr: e, Line: c.line, Optional: kw == "ensures?", Assumed: kw == "ensures!"}
 			switch kw {
 			case "requires":
 				cur.Requires = append(cur.Requires, cl)
-			case "ensures", "ensures?":
+			case "ensures", "ensures?", "ensures!":
 				cur.Ensures = append(cur.Ensures, cl)
 			case "cover":
 				cur.Covers = append(cur.Covers, cl)
